@@ -2,7 +2,6 @@ package main
 
 import (
 	"fmt"
-	"go/token"
 	"go/types"
 	"strings"
 
@@ -368,15 +367,27 @@ func (cx *Ctx) checkDynamicIssuerPaths(r *Report) {
 		}
 		return v
 	}
-	var leaves func(p *APath, v ssa.Value, out *[]ssa.Value)
-	leaves = func(p *APath, v ssa.Value, out *[]ssa.Value) {
+	// the ordered pieces of the result (concatenation, Sprintf, strings.Builder alike), each phi replaced by the
+	// value it has on the path
+	var leaves func(p *APath, v ssa.Value, out *[]string, depth int)
+	leaves = func(p *APath, v ssa.Value, out *[]string, depth int) {
 		v = onPath(p, v)
-		if bo, isB := v.(*ssa.BinOp); isB && bo.Op == token.ADD {
-			leaves(p, bo.X, out)
-			leaves(p, bo.Y, out)
-			return
+		for _, part := range mergeLits(cx.strParts(v)) {
+			if part.IsLit {
+				*out = append(*out, "const:"+part.Lit)
+				continue
+			}
+			v2 := onPath(p, part.Val)
+			if v2 != part.Val && depth < 6 {
+				leaves(p, v2, out, depth+1)
+				continue
+			}
+			if k, isK := constString(v2); isK {
+				*out = append(*out, "const:"+k)
+				continue
+			}
+			*out = append(*out, fx.path(v2))
 		}
-		*out = append(*out, v)
 	}
 	pathPar, flagPar := fx.path(di.Params[1]), fx.path(di.Params[2])
 	bad := ""
@@ -386,8 +397,8 @@ func (cx *Ctx) checkDynamicIssuerPaths(r *Report) {
 		if p.Ret == nil || len(p.Ret.Results) != 1 {
 			continue
 		}
-		var ls []ssa.Value
-		leaves(p, p.Ret.Results[0], &ls)
+		var got0 []string
+		leaves(p, p.Ret.Results[0], &got0, 0)
 		insecure, nonEmpty, hasPrefix, prefixKnown := false, false, false, false
 		for _, a := range p.Atoms {
 			switch {
@@ -408,20 +419,28 @@ func (cx *Ctx) checkDynamicIssuerPaths(r *Report) {
 			want = append(want, "const:/")
 		}
 		want = append(want, pathPar)
-		var got []string
-		for _, v := range ls {
-			got = append(got, fx.path(v))
+		// adjacent literals are one piece of text: compare the texts
+		join := func(xs []string) string {
+			t := ""
+			for _, x := range xs {
+				if strings.HasPrefix(x, "const:") {
+					t += strings.TrimPrefix(x, "const:")
+				} else {
+					t += "<" + x + ">"
+				}
+			}
+			return t
 		}
+		got := []string{join(got0)}
+		want = []string{join(want)}
 		if strings.Join(got, " + ") != strings.Join(want, " + ") {
 			bad = fmt.Sprintf("under [%s] the issuer is %s, expected %s", atomsString(p.Atoms), strings.Join(got, " + "), strings.Join(want, " + "))
 		}
-		for _, g := range got {
-			if g == "const:/" {
-				sawSlash = true
-			}
-			if g == "const:http" {
-				sawHTTP = true
-			}
+		if strings.Contains(got[0], ">/<") {
+			sawSlash = true
+		}
+		if strings.HasPrefix(got[0], "http://") {
+			sawHTTP = true
 		}
 	}
 	if bad == "" && !sawSlash {
